@@ -25,6 +25,19 @@ package sql
 //@   // no outcome leaves a transaction open (single-connection pool: the next operation would block for ever)
 //@   ensures[C07.open] n_open == old(n_open)
 
+// The same scenario in the interference reading (C05; /verif/contracts/25_interference.spec): other writers may commit
+// before Begin and before any statement issued outside the transaction.  The checkpoint the caller decides on is
+// the one the writing transaction sees, and the commit lands on exactly that state: read and write are one atomic step.
+//@ func verifScenarioWrite
+//@   opt mode=interference
+//@   returns (werr, seen, gerr, serr)
+//@   requires p != nil && p.db != nil
+//@   modifies n_begin, tx_open, txw_has, txw_val, n_open, n_exec, n_dbcommit, commit_err, disk_has, disk_val, n_rollback, row_err, row_has, row_val, beg_has, beg_val
+//@   ensures[C05.sq] werr == nil && gerr == nil ==> beg_has[id] && seen == beg_val[id]
+//@   ensures[C05.sq] werr == nil && gerr != nil && code(gerr) == NotFound ==> !beg_has[id]
+//@   ensures[C05.sq] serr == nil ==> disk_has == beg_has[id := true] && disk_val == beg_val[id := c]
+//@   ensures[C05.sq] serr != nil && n_dbcommit == old(n_dbcommit) ==> disk_has == beg_has && disk_val == beg_val
+
 //@ func verifScenarioRefuse
 //@   returns (werr, seen, gerr)
 //@   requires p != nil && p.db != nil
